@@ -1,5 +1,6 @@
-(* C10 — Edits are invertible: delete undoes insert. *)
-From GTS Require Import Base Arith Loc Seq BaseLemmas LocProofs EditProofs SeqProofs JoinDen JoinLift UndoProofs.
+(* C10 — Edits are invertible: delete undoes insert, concat undoes split. *)
+From GTS Require Import Base Arith Loc Seq BaseLemmas LocProofs EditProofs SeqProofs JoinDen JoinLift UndoProofs Region RegionProofs ResizeProofs RotateProofs SplitConcat.
+From Coq Require Import Permutation.
 Open Scope Z_scope.
 
 (* residues are restored *)
@@ -52,3 +53,49 @@ Example C10_example :
   shift (Ranged 2 6 true true) 4 3 = Ok (Joined [Ranged 2 4 true false; Ranged 7 9 false true]) /\
   expand (Joined [Ranged 2 4 true false; Ranged 7 9 false true]) 4 (- 3) = Ok (Ranged 2 6 true true).
 Proof. vm_compute. split; reflexivity. Qed.
+
+(* concat undoes split.  Cuts 0 <= c1 <= ... <= ck = L (chain; repeated cut
+   positions, i.e. empty pieces, allowed); windows = the consecutive windows.
+   Residues: slicing every window out of a sequence and concatenating the
+   pieces in order gives the sequence back (Slice and Concat of the model, on
+   sequences without features). *)
+Theorem C10_split_concat_bytes : forall (p : list byte) cuts, chain 0 cuts (zlen p) ->
+  exists pieces,
+    omapM (fun w => seq_slice (bare p) (fst w) (snd w)) (windows 0 cuts) = Ok (map bare pieces) /\
+    (cuts <> [] -> seq_concat (map bare pieces) = Ok (bare p)).
+Proof. exact split_concat_bytes. Qed.
+Print Assumptions C10_split_concat_bytes.
+
+(* Features.  One piece [s,e) of a location without join(...): the two
+   deletions of Slice succeed and, moved back by Concat's Expand(0,s), the
+   piece denotes exactly the residues of the original inside the window, in
+   the original order and each on its original strand.  (M: any bound above the
+   coordinates; wf_all (awf s M) says the sliced location has no empty range.) *)
+Theorem C10_piece_denotes_its_window_partial : forall s e L M l, 0 <= s <= e -> e <= L ->
+  jfree l = true -> ord_ok l = true -> Forall (fun x => 0 <= fst x < L) (den l) ->
+  exists l1 l2, expand l e (e - L) = Ok l1 /\ expand l1 0 (- s) = Ok l2 /\
+    (wf_all (awf s M) l2 = true ->
+     exists l3, expand l2 0 s = Ok l3 /\ den l3 = filter (inwin (s, e)) (den l)).
+Proof. exact piece_den. Qed.
+Print Assumptions C10_piece_denotes_its_window_partial.
+
+(* ... and the windows of any ascending cut list partition what the feature
+   denotes: the pieces together denote exactly the residues of the original
+   feature (each residue in exactly one piece, with its strand), whatever the
+   location is. *)
+Theorem C10_pieces_partition : forall cuts c0 L (d : list (Z * bool)), chain c0 cuts L ->
+  Forall (fun x => c0 <= fst x < L) d ->
+  Permutation (flat_map (fun w => filter (inwin w) d) (windows c0 cuts)) d.
+Proof. exact windows_partition. Qed.
+Print Assumptions C10_pieces_partition.
+
+Example C10_split_example :
+  let l := Complemented (Ordered [Ranged 6 9 true false; Ranged 1 4 false false]) in
+  chain 0 [3; 3; 7; 10] 10 /\ windows 0 [3; 3; 7; 10] = [(0, 3); (3, 3); (3, 7); (7, 10)] /\
+  jfree l = true /\ ord_ok l = true /\
+  expand l 7 (7 - 10) = Ok (Complemented (Ordered [Ranged 6 7 true true; Ranged 1 4 false false])) /\
+  expand (Complemented (Ordered [Ranged 6 7 true true; Ranged 1 4 false false])) 0 (- 3)
+    = Ok (Complemented (Ordered [Ranged 3 4 true true; Ranged 0 1 true false])) /\
+  wf_all (awf 3 100) (Complemented (Ordered [Ranged 3 4 true true; Ranged 0 1 true false])) = true /\
+  filter (inwin (3, 7)) (den l) = [(3, true); (6, true)].
+Proof. vm_compute. repeat split; try reflexivity; intros H; discriminate H. Qed.
